@@ -162,7 +162,9 @@ theorem C17_spawn_keys_distinct (seed nChains i j : Int) (hs : 0 ≤ seed)
 
 example : chainSeed 5 3 1 = .ok { entropy := 5, spawnKey := [1] } ∧
     chainSeed 5 7 1 = .ok { entropy := 5, spawnKey := [1] } ∧
-    chainSeed 5 3 2 = .ok { entropy := 5, spawnKey := [2] } := by decide
+    chainSeed 5 3 2 = .ok { entropy := 5, spawnKey := [2] } :=
+  ⟨chainSeed_eq 5 3 1 (by decide) (by decide) (by decide), chainSeed_eq 5 7 1 (by decide) (by decide) (by decide),
+   chainSeed_eq 5 3 2 (by decide) (by decide) (by decide)⟩
 
 /-- out-of-range chain index and negative seed are refused (as numpy/Python do) -/
 theorem C17_rng_refusals (seed nChains i : Int) :
@@ -174,16 +176,17 @@ theorem C17_rng_refusals (seed nChains i : Int) :
     unfold chainSeed seedSequence pyGet SeedSeq.spawn
     have h1 : ¬ seed < 0 := by omega
     have h2 : ¬ i < 0 := by omega
-    have h3 : nChains.toNat ≤ i.toNat := by omega
+    have h3 : (List.range nChains.toNat)[i.toNat]? = none :=
+      List.getElem?_eq_none (by simp; omega)
     simp [h1, h2, h3]
 
 /-! ### VI branch -/
 
-/-- **VI models are asked once.** For every seed ≥ 0 and `n ≥ 0`: reset, then
+/-- **VI models are asked once.** For every seed ≥ 0 and every `n` (in use `n ≥ 1`): reset, then
     `set_rng(default_rng(seed))` (root key), then exactly one `sample(num_samples = n)` call; if
     the model returns `n` samples (its documented contract) there follow exactly `n` `add_theta`
     and no error; whatever it returns, `sample` is called exactly once, with argument `n`. -/
-theorem C17_vi_once (seed n : Int) (hs : 0 ≤ seed) (hn : 0 ≤ n) :
+theorem C17_vi_once (seed n : Int) (hs : 0 ≤ seed) :
     viRun seed n n.toNat
       = ([VIEvent.reset, .setRng seed [], .sampleCall n] ++ (List.range n.toNat).map VIEvent.addTheta, none)
     ∧ ∀ returned : Nat,
@@ -208,11 +211,11 @@ theorem C17_vi_once (seed n : Int) (hs : 0 ≤ seed) (hn : 0 ≤ n) :
     · simp only [h1, if_false, hr, if_true]
       refine ⟨by simp, ?_, ?_⟩
       · rw [List.filter_append, hf]; simp
-      · rw [List.filter_append, hg]; simp; omega
+      · rw [List.filter_append, List.length_append, hg]; simp; omega
     · simp only [h1, if_false, hr]
       refine ⟨by simp, ?_, ?_⟩
       · rw [List.filter_append, hf]; simp
-      · rw [List.filter_append, hg]; simp; omega
+      · rw [List.filter_append, List.length_append, hg]; simp; omega
 
 example : viRun 7 3 3 = ([.reset, .setRng 7 [], .sampleCall 3, .addTheta 0, .addTheta 1, .addTheta 2], none) := by
   decide
